@@ -906,11 +906,56 @@ pub fn c08(thorough: bool, seed: u64) -> CheckOutput {
         },
         |a, b| a.merge(b),
     );
+    // generate() WITHOUT a seed draws its entropy from the operating system for every call: the
+    // bytes cannot be predicted, but two calls returning the same 60+ opcode pickle means the
+    // second call did not get an entropy input of its own
+    let mut acc = acc;
+    for p in 0..6u8 {
+        for style in 0..3u8 {
+            acc.evaluations += 1;
+            let cfg = Config {
+                order: style,
+                ..Config::default_for(p, Entropy::Seed(0))
+            };
+            let mut g = cfg.build();
+            g.seed = None;
+            let mut outs: Vec<Vec<u8>> = Vec::new();
+            for k in 0..4 {
+                if k == 2 {
+                    g.reset();
+                }
+                if let Ok(b) = g.generate() {
+                    outs.push(b);
+                }
+            }
+            let mut fresh = cfg.build();
+            fresh.seed = None;
+            if let Ok(b) = fresh.generate() {
+                outs.push(b);
+            }
+            acc.count("unseeded_calls_compared", outs.len() as u64);
+            let distinct: std::collections::BTreeSet<&Vec<u8>> = outs.iter().collect();
+            if distinct.len() < outs.len() {
+                let msg = format!(
+                    "{} unseeded generate() calls (4 on one generator incl. a reset(), 1 on a fresh one; protocol {}, 60..300 opcodes) returned only {} distinct pickles: a call repeated an earlier result instead of drawing fresh entropy",
+                    outs.len(),
+                    p,
+                    distinct.len()
+                );
+                acc.violate(Violation {
+                    property: "C08".into(),
+                    signature: format!("C08:unseeded:repeats:P{}", p),
+                    message: msg.clone(),
+                    replay: json!({"kind": "c08-unseeded", "property": "C08", "protocol": p, "message": msg}),
+                });
+            }
+        }
+    }
     CheckOutput {
         acc,
         rule: "cases = (configuration, history) pairs: every history of length 1..3 over {generate, generate_from_arbitrary(x0), generate_from_arbitrary(x1), reset} (84, exhaustive) plus sampled histories of length 4..6, plus histories in which an input is followed by an extension or a truncation of itself, plus histories with writes to the public configuration fields between calls (opt-in flags, state.version, range, rate, unsafe flag; the fresh generator gets the same writes and no earlier call), for configurations drawn from the full matrix on all six protocols; every generation call of the history is compared byte-for-byte with a fresh generator given only that call; distinct = distinct (config, history); non-trivial = history has at least two generation calls".into(),
         extra: json!({"exhaustive_histories_up_to_length_3": exhaustive.len()}),
-        assumptions: vec!["generate() is compared only with a seed set (unseeded generation is not reproducible by design)".into()],
+        assumptions: vec!["generate() is compared byte-for-byte only with a seed set (unseeded generation is not reproducible by design); unseeded calls are only required to differ from each other".into()],
         exhaustive: None,
     }
 }
@@ -1354,6 +1399,15 @@ fn c07_cases(seed: u64, n: usize) -> Vec<Config> {
             ..Config::default_for(proto, Entropy::Bytes(vec![]))
         };
         v.push(crate::mon_trace::object_heavy(&base, mix(seed ^ 0xC07, k as u64)));
+    }
+    // protocol 5 with the buffer opcodes on, default size: the one configuration class with opcodes
+    // that act on an existing object in place (READONLY_BUFFER); many seeds
+    for k in 0..n {
+        v.push(Config {
+            ext: k % 2 == 0,
+            buf: true,
+            ..Config::default_for(5, Entropy::Seed(mix(seed ^ 0xB0F5, k as u64) >> (k % 40)))
+        });
     }
     // two generations with far more than 4096 mutations each (every value of a 12 000-opcode pickle
     // mutated): a budget, counter or pool shared between generators of one process shows when
